@@ -1,5 +1,5 @@
 """model unit tests: every modelled string/list/dict operation, run symbolically and natively"""
-ALPHA = 'ab \n{'
+ALPHA = 'ab \n\r'
 
 def sym(n):
     s = SX.fresh(n)
@@ -26,6 +26,10 @@ def ops(n, m):
     out.append(('count', s.count(t) if m else -1))
     out.append(('split', s.split(t) if m else None))
     out.append(('replace', s.replace(t, 'Z') if m else None))
+    out.append(('splitlines', s.splitlines()))
+    out.append(('splitlines-keep', (s + t).splitlines(True)))
+    out.append(('isalpha', bool(s.isalpha())))
+    out.append(('isalnum', bool(t.isalnum())))
     out.append(('eqconst', bool(s == 'ab'[:n])))
     out.append(('inconst', bool(s in ('a', 'ab', ' '))))
     out.append(('inset', bool(s in {'a', 'ab', ' '})))
